@@ -68,6 +68,14 @@ fn main() {
     if run(&jwt_kid("did:example:third#k", "", &claims("did:example:third", "", "")), &docs, &base(), FailFast::FirstError).is_ok() { return Err("kid of an untrusted DID accepted".into()); }
     // kid of a method the document does not contain
     if ok(&jwt_kid(&format!("{DID}#nope"), "", &claims(DID, "", "")), &base()) { return Err("kid of an absent method accepted".into()); }
+    // with a method-id override the VERIFYING method is the configured one: an issuer equal to the kid's DID (but not to
+    // the DID of the configured method) is not the signer
+    {
+      let o = base().verification_options(JwsVerificationOptions::default().method_id(DIDUrl::parse(format!("{DID}#k")).unwrap()));
+      let docs = [doc(), doc_with(OTHER, "verificationMethod", &[])];
+      if run(&jwt_kid(&format!("{OTHER}#k"), "", &claims(OTHER, "", "")), &docs, &o, FailFast::FirstError).is_ok() { return Err(format!("method id {DID}#k configured, kid {OTHER}#k, issuer {OTHER}: accepted")); }
+      if run(&jwt_kid(&format!("{OTHER}#k"), "", &claims(DID, "", "")), &docs, &o, FailFast::FirstError).is_err() { return Err(format!("method id {DID}#k configured, kid {OTHER}#k, issuer {DID}: rejected")); }
+    }
     // method id override wins over kid
     let o = base().verification_options(JwsVerificationOptions::default().method_id(DIDUrl::parse(format!("{DID}#nope")).unwrap()));
     if ok(&jwt("", &claims(DID, "", "")), &o) { return Err("configured method id of an absent method ignored in favour of kid".into()); }
